@@ -36,6 +36,9 @@ pub enum VAct {
     },
     Blk {
         secs: u64,
+        /// additional milliseconds (block time has sub-second resolution)
+        #[serde(default)]
+        ms: u64,
     },
     /// SettleFunding sent by the configured margin engine
     Settle,
@@ -302,11 +305,11 @@ impl VWorld {
                 },
             ),
             VAct::Settle => self.exec("engine", &v, &VammExec::SettleFunding {}),
-            VAct::Blk { secs } => {
+            VAct::Blk { secs, ms } => {
                 self.tap.reset(None);
                 self.app.update_block(|b| {
                     b.height += 1;
-                    b.time = b.time.plus_seconds(*secs);
+                    b.time = b.time.plus_seconds(*secs).plus_nanos(*ms * 1_000_000);
                 });
                 Outcome {
                     ok: true,
